@@ -662,11 +662,12 @@ func tokSubset(a, b map[string]bool) bool {
 }
 
 // genesisNameAgreement (R20.7):
-//   export: a field of a genesis document filled directly from a keeper reader Get<X> carries
-//           the name of that reader (LastPoolId <- GetLastPoolID, not GetLastPairID);
-//   import: a field of a genesis record handed to a keeper function goes to a parameter of the
-//           same name where both names are decidable (item.Name -> name, item.Denom -> denom,
-//           id kinds as in the identifier-kind rule).
+//
+//	export: a field of a genesis document filled directly from a keeper reader Get<X> carries
+//	        the name of that reader (LastPoolId <- GetLastPoolID, not GetLastPairID);
+//	import: a field of a genesis record handed to a keeper function goes to a parameter of the
+//	        same name where both names are decidable (item.Name -> name, item.Denom -> denom,
+//	        id kinds as in the identifier-kind rule).
 func genesisNameAgreement(p *Prog, r *Report, rule, m string, exportReach, initReach map[*ssa.Function]bool) {
 	var efs []*ssa.Function
 	for f := range exportReach {
